@@ -31,6 +31,7 @@ func (o *c02Oracle) after(ch *chain, ci *callInfo) *Violation {
 	if ci.Panic != nil {
 		// a halting ABCI call is another property's subject (C07/C11); the history ends here
 		o.aborted = fmt.Sprintf("%s at height %d panicked", ci.Kind, ci.Height)
+		o.c.Label("panic:" + ci.Kind + ":" + panicClass(ci.Panic))
 		return nil
 	}
 	v := ci.After
@@ -148,9 +149,10 @@ func init() {
 			"fees at/below/above the requirement, CheckTx/Simulate interleaved) executed through InitChain/BeginBlock/DeliverTx/EndBlock/Commit on a fully wired application; after EVERY ABCI call: " +
 			"supply == sum of all account balances, no negative balance, and the per-call supply delta rule of the statement. Non-trivial = the history contains a mint, a burn and a successful send; " +
 			"distinctness = hash of the program",
-		Gen:  genC02,
-		New:  func() interface{} { return &hProg{} },
-		Exec: execC02,
+		Gen:       genC02,
+		New:       func() interface{} { return &hProg{} },
+		Exec:      execC02,
+		RecordCur: func(interface{}) bool { return true },
 		Assum: []string{"state is read from the root multistore's working state and decoded with amino, independently of the keepers", "a BeginBlock/DeliverTx panic ends the history (owned by C07/C11)",
 			"awards are requested by a harness module calling the public Keeper.AwardCoinsTo during DeliverTx"},
 	})
